@@ -152,6 +152,7 @@ class Builder:
                 obs.append(c)
         obs += [c for c in self.extra if c["items"]]
         pts = {pid: dict(p) for pid, p in self.P.items()}
+        obs = copy.deepcopy(obs)
         return {"dim": 2 if self.dim == 2 else 3, "points": pts, "obs": obs,
                 "params": {"sigma-apr": 10, "conf-pr": 0.95, "tol-abs": 1000, "sigma-act": "apriori"}}
 
